@@ -18,6 +18,7 @@ import (
 	"os"
 	"os/exec"
 	"path/filepath"
+	"regexp"
 	"sort"
 	"strconv"
 	"strings"
@@ -35,6 +36,10 @@ type propCfg struct {
 	ThorTimeout  time.Duration
 	Level        string
 	ReplayReps   int
+	// Fuzz: native fuzz targets (Fuzz* functions of the package) run after the
+	// shards in the thorough tier, each for FuzzSeconds with all cores.
+	Fuzz        []string
+	FuzzSeconds int
 }
 
 var props = map[string]propCfg{}
@@ -62,14 +67,117 @@ func reg(id string, c propCfg) {
 }
 
 func init() {
-	for _, id := range []string{"C01", "C02", "C03", "C04", "C07", "C08", "C09", "C11", "C12", "C13", "C14", "C15", "C16", "C17", "C18", "C20"} {
+	for _, id := range []string{"C01", "C04", "C09", "C13", "C14", "C16", "C17", "C18"} {
 		reg(id, propCfg{})
 	}
+	reg("C02", propCfg{Fuzz: []string{"FuzzPartition", "FuzzPartitionGrammar", "FuzzEpochs"}, FuzzSeconds: 90})
+	reg("C03", propCfg{Fuzz: []string{"FuzzConcat"}, FuzzSeconds: 60})
+	reg("C07", propCfg{Fuzz: []string{"FuzzPrograms", "FuzzRobust"}, FuzzSeconds: 90})
+	reg("C08", propCfg{Fuzz: []string{"FuzzHistory"}, FuzzSeconds: 60})
+	reg("C11", propCfg{Fuzz: []string{"FuzzText"}, FuzzSeconds: 60})
+	reg("C12", propCfg{Fuzz: []string{"FuzzHistories"}, FuzzSeconds: 60})
+	reg("C15", propCfg{Fuzz: []string{"FuzzTputs"}, FuzzSeconds: 60})
+	reg("C20", propCfg{Fuzz: []string{"FuzzViewport", "FuzzBoxlayout"}, FuzzSeconds: 60})
 	reg("C05", propCfg{QuickShards: 4, ReplayReps: 20})
 	reg("C06", propCfg{QuickShards: 4, ReplayReps: 20})
 	reg("C10", propCfg{Race: true, QuickShards: 8, ReplayReps: 20})
 	reg("C19", propCfg{Wasm: true, ThorShards: 4})
 }
+
+var fuzzLine = regexp.MustCompile(`fuzz: elapsed: [^,]+, execs: (\d+) \((\d+)/sec\), new interesting: (\d+) \(total: (\d+)\)`)
+
+// fuzzStage runs the property's native fuzz targets (thorough tier only): the
+// package is built once more with coverage instrumentation, each target runs
+// in a scratch working directory (a copy of the package's testdata, so that
+// nothing is written into /verif/harness) with a fresh cache directory.
+func fuzzStage(id, tier, replay string, cfg propCfg, harness, modfile, outDir, buildDir, pid string) (viol []violation, info map[string]any, infra []string) {
+	info = map[string]any{}
+	if tier != "thorough" || replay != "" || len(cfg.Fuzz) == 0 {
+		return
+	}
+	bin := filepath.Join(buildDir, id+"-"+pid+"-fuzz.test")
+	scratch = append(scratch, bin)
+	bargs := []string{"test", "-c", "-fuzz=Fuzz", "-tags", "verif", "-o", bin}
+	if modfile != filepath.Join(harness, "go.mod") {
+		bargs = append(bargs, "-modfile", modfile)
+	}
+	bargs = append(bargs, "./"+cfg.Pkg)
+	cmd := exec.Command("go", bargs...)
+	cmd.Dir = harness
+	cmd.Env = goEnv()
+	if out, err := cmd.CombinedOutput(); err != nil {
+		infra = append(infra, fmt.Sprintf("fuzz build failed: %v: %s", err, out))
+		return
+	}
+	secs := cfg.FuzzSeconds
+	if v := os.Getenv("VERIF_FUZZ_SECONDS"); v != "" {
+		if n, err := strconv.Atoi(v); err == nil && n > 0 {
+			secs = n
+		}
+	}
+	if secs == 0 {
+		secs = 90
+	}
+	for _, target := range cfg.Fuzz {
+		wd := filepath.Join(outDir, "fuzzwd-"+target)
+		_ = os.MkdirAll(wd, 0o755)
+		if src := filepath.Join(harness, cfg.Pkg, "testdata"); dirExists(src) {
+			_ = exec.Command("cp", "-r", src, filepath.Join(wd, "testdata")).Run()
+		}
+		c := exec.Command(bin, "-test.run", "^$", "-test.fuzz", "^"+target+"$", "-test.fuzztime", fmt.Sprintf("%ds", secs),
+			"-test.fuzzcachedir", filepath.Join(outDir, "fuzzcache-"+target), "-test.fuzzminimizetime", "10s", "-test.parallel", "16", "-test.timeout", "0")
+		c.Dir = wd
+		c.Env = goEnv("VERIF_DIR="+verifDir, "VERIF_REPO="+repoDir, "VERIF_TIER="+tier, "VERIF_OUTDIR="+outDir, "VERIF_FUZZ=1")
+		out, err := c.CombinedOutput()
+		var execs, interesting, total int64
+		for _, m := range fuzzLine.FindAllSubmatch(out, -1) {
+			execs, _ = strconv.ParseInt(string(m[1]), 10, 64)
+			interesting, _ = strconv.ParseInt(string(m[3]), 10, 64)
+			total, _ = strconv.ParseInt(string(m[4]), 10, 64)
+		}
+		info["fuzz_"+target] = map[string]any{"seconds": secs, "execs": execs, "new_interesting_inputs": interesting, "corpus_total": total}
+		recs, _ := filepath.Glob(filepath.Join(outDir, "fuzzviol-*.json"))
+		sort.Strings(recs) // smallest case first (the name starts with the case length)
+		found := false
+		for _, r := range recs {
+			var v violation
+			if b, e := os.ReadFile(r); e == nil && json.Unmarshal(b, &v) == nil {
+				if !found {
+					viol = append(viol, v)
+				}
+				found = true
+			}
+			_ = os.Remove(r)
+		}
+		if err != nil && !found {
+			// the target failed without the oracle speaking: a hang or a crash of the
+			// worker process. Keep the fuzzer's own reproducer.
+			dir := filepath.Join(verifDir, "replays", id)
+			_ = os.MkdirAll(dir, 0o755)
+			logf := filepath.Join(dir, "fuzz-"+target+".log")
+			_ = os.WriteFile(logf, out, 0o644)
+			files, _ := filepath.Glob(filepath.Join(wd, "testdata", "fuzz", target, "*"))
+			for _, f := range files {
+				if !fileExists(filepath.Join(harness, cfg.Pkg, "testdata", "fuzz", target, filepath.Base(f))) {
+					_ = exec.Command("cp", f, filepath.Join(dir, "fuzz-"+target+"-"+filepath.Base(f))).Run()
+				}
+			}
+			if bytes.Contains(out, []byte("Failing input written to")) || crashInLibrary(out) {
+				viol = append(viol, violation{Check: "fuzz:" + target, Replay: logf, Error: "the fuzz worker crashed or hung on an input (reproducer and log saved next to the log file)"})
+			} else {
+				tail := out
+				if len(tail) > 3000 {
+					tail = tail[len(tail)-3000:]
+				}
+				infra = append(infra, fmt.Sprintf("fuzz target %s ended abnormally: %v: %s", target, err, tail))
+			}
+		}
+	}
+	return
+}
+
+func dirExists(p string) bool  { st, err := os.Stat(p); return err == nil && st.IsDir() }
+func fileExists(p string) bool { _, err := os.Stat(p); return err == nil }
 
 type violation struct {
 	Check  string `json:"check"`
@@ -252,6 +360,9 @@ func main() {
 	if replay != "" {
 		nsh = 1
 	}
+	if os.Getenv("VERIF_ONLY_FUZZ") != "" { // development aid: only the native fuzz stage
+		nsh = 0
+	}
 	outDir := filepath.Join(buildDir, "out", fmt.Sprintf("%s-%s-%d", id, tier, os.Getpid()))
 	_ = os.RemoveAll(outDir)
 	_ = os.MkdirAll(outDir, 0o755)
@@ -311,6 +422,7 @@ func main() {
 		}(i)
 	}
 	wg.Wait()
+	fuzzViol, fuzzInfo, fuzzInfra := fuzzStage(id, tier, replay, cfg, harness, modfile, outDir, buildDir, pid)
 	cleanScratch()
 
 	// ---- merge
@@ -414,6 +526,12 @@ func main() {
 			distinct++
 		}
 	}
+
+	merged.Violations = append(merged.Violations, fuzzViol...)
+	for k, v := range fuzzInfo {
+		merged.Extra[k] = v
+	}
+	infra = append(infra, fuzzInfra...)
 
 	// ---- known findings
 	findings := loadFindings()
